@@ -337,6 +337,79 @@ def wire_malformed_signed_canonical(rng, oracle, rec):
     return out
 
 
+def _split_item(item):
+    """(is_list, payload) of a canonically framed item"""
+    b0 = item[0]
+    if b0 < 0x80:
+        return False, item
+    if b0 < 0xB8:
+        return False, item[1:]
+    if b0 < 0xC0:
+        return False, item[1 + b0 - 0xB7:]
+    if b0 < 0xF8:
+        return True, item[1:]
+    return True, item[1 + b0 - 0xF7:]
+
+
+def item_deformations(item):
+    """(label, bytes): every non-canonical or mis-typed framing of one canonically framed RLP item that carries the same
+    payload, plus off-by-one lengths and integer re-writings"""
+    is_list, p = _split_item(item)
+    base = 0xC0 if is_list else 0x80
+    n = len(p)
+    out = []
+    nb = n.to_bytes(max(1, (n.bit_length() + 7) // 8), "big")
+    if n < 56:
+        out.append(("long_form_for_short", bytes([base + 0x37 + len(nb)]) + nb + p))
+    out.append(("length_with_leading_zero", bytes([base + 0x37 + len(nb) + 1]) + b"\x00" + nb + p))
+    if not is_list and n == 1 and p[0] < 0x80 and item == p:
+        out.append(("single_byte_wrapped", b"\x81" + p))
+    if not is_list:
+        out.append(("payload_leading_zero", rlp_str(b"\x00" + p)))
+        out.append(("payload_widened_9", rlp_str(b"\x01" + bytes(max(0, 8 - n)) + p)))
+        out.append(("payload_widened_3", rlp_str(b"\x01" + bytes(max(0, 2 - n)) + p)))
+        if n == 0:
+            out.append(("zero_as_00", b"\x00"))
+        out.append(("string_as_list", rlp_list(p)))
+        out.append(("string_as_list_of_string", rlp_list(item)))
+    else:
+        out.append(("list_as_string", rlp_str(p)))
+    if n + 1 < 56 or n >= 56:
+        h1 = rlp_hdr(is_list, n + 1)
+        out.append(("length_plus_one", h1 + p))
+    if n >= 1 and not (not is_list and n == 1 and p[0] < 0x80 and item == p):
+        h2 = rlp_hdr(is_list, n - 1)
+        out.append(("length_minus_one", h2 + p))
+    return out
+
+
+def rlp_deformation_matrix(rng, oracle, rec, limit=None):
+    """(label, bytes): each item of the record (signature, sequence number, every key, every value) and the outer list, in
+    every deformed framing of item_deformations, the rest of the record untouched; signed (a) over the canonical
+    content of the ORIGINAL record and (b) over the content exactly as on the wire. The model decides what each is."""
+    key, seq, pl, sig = rec["key"], rec["seq"], list(rec["pairs"]), rec["sig"]
+    items = [("seq", rlp_uint(seq))]
+    for k, v in pl:
+        items.append(("key_" + k.hex()[:8], rlp_str(k)))
+        items.append(("val_" + k.hex()[:8], v))
+    out = []
+    for idx, (name, it) in enumerate(items):
+        for lab, bad in item_deformations(it):
+            body = b"".join(bad if j == idx else x for j, (_, x) in enumerate(items))
+            wire_content = rlp_list(body)
+            out.append(("deform_%s_%s_sig_canonical" % (name.split("_")[0], lab), rlp_list(rlp_str(sig) + body)))
+            sg2 = key.sign(oracle, wire_content)
+            out.append(("deform_%s_%s_sig_wire" % (name.split("_")[0], lab), rlp_list(rlp_str(sg2) + body)))
+    canon_body = b"".join(x for _, x in items)
+    for lab, bad in item_deformations(rlp_str(sig)):
+        out.append(("deform_sig_%s" % lab, rlp_list(bad + canon_body)))
+    for lab, bad in item_deformations(rlp_list(rlp_str(sig) + canon_body)):
+        out.append(("deform_outer_%s" % lab, bad))
+    if limit and len(out) > limit:
+        out = rng.sample(out, limit)
+    return out
+
+
 def honest_with_duplicates(rng, oracle, key, seq, base):
     """the legal empty key (and an ordinary key) repeated at the front / in the middle: both signed over the wire bytes
     and signed over the de-duplicated record (first value / last value)"""
